@@ -284,6 +284,13 @@ impl TraversalQueue {
             self.partition,
             crate::verif::QueueOp::DrainAbove { threshold },
         );
+        #[cfg(aranya_verif)]
+        let verif_queue = core::ptr::from_ref(self) as usize;
+        #[cfg(aranya_verif)]
+        let mut f = |loc: Location| {
+            crate::verif::queue_drained(verif_queue, loc);
+            f(loc);
+        };
         // Drain from uncovered region.
         let mut i = 0;
         while i < self.partition {
@@ -364,6 +371,13 @@ impl TraversalQueue {
             self.partition,
             crate::verif::QueueOp::DrainAll,
         );
+        #[cfg(aranya_verif)]
+        let verif_queue = core::ptr::from_ref(self) as usize;
+        #[cfg(aranya_verif)]
+        let mut f = |loc: Location| {
+            crate::verif::queue_drained(verif_queue, loc);
+            f(loc);
+        };
         for i in 0..self.partition {
             f(self.entries[i]);
         }
